@@ -170,11 +170,98 @@ for i in range(runs):
             c.inconclusive('binding self-test failed: an incomplete copy was accepted')
     c.log('run %d (%s): %d events, %d non-empty file snapshots (%d with merges in between)' % (i, cfg['engine'], len(ll), len(wrote), sum(1 for e in wrote if len(e['copied']) > 1)))
 
+# ---- 3. upload of the snapshot to the remote store (banyand/backup backupSnapshot) ----
+# design: Backup.tla exhaustive (walk, concurrent uploads, cancellation at any point, error triage, orphan pruning);
+# spec self-test: with "context.Canceled is never reported" TLC must find a success with an incomplete copy.
+# binding: every maximal behaviour whose shape the harness can schedule (cancel before the walk, or all files walked
+# and then any interleaving of upload completions and a cancellation) is replayed on the REAL backupSnapshot with a
+# gated in-memory remote store.
+BK = 'SPECIFICATION Spec\nCONSTANTS\n  Local = %s\n  Remote0 = %s\n  SwallowCancel = %s\nINVARIANTS\n  SuccessIsComplete\n  FailureKeepsPrevious\n  NothingPrunedEarly\nCHECK_DEADLOCK FALSE\n'
+bk_fams = [('{"a", "b", "c"}', '{"a", "o"}')] if c.quick else [('{"a", "b", "c"}', '{"a", "o"}'), ('{"a", "b", "c", "d"}', '{"o", "p"}'), ('{"a", "b"}', '{}')]
+bk_binp = c.gobuild('c19backup')
+bk_probes, bk_states, bk_skipped = [], 0, 0
+for (loc, rem) in bk_fams:
+    bx = tlc.run('Backup.tla', 'bx.cfg', tag='c19x', files={'bx.cfg': BK % (loc, rem, 'TRUE')}, timeout=600, workers=2)
+    if bx.violated != 'SuccessIsComplete':
+        c.inconclusive('spec self-test: Backup.tla with SwallowCancel did not violate SuccessIsComplete (%s %s)' % (bx.violated, bx.error))
+    bg = tlc.run('Backup.tla', 'bg.cfg', tag='c19g', files={'bg.cfg': BK % (loc, rem, 'FALSE')}, dump=True, timeout=900, workers=4)
+    if not bg.ok:
+        c.inconclusive('TLC on Backup.tla: violated=%s error=%s\n%s' % (bg.violated, bg.error, bg.output[-1500:]))
+    bn, be, bi = tlc.graph(bg)
+    tlc.cleanup(bg)
+    bk_states += len(bn)
+    succ = {}
+    for (u, v, _lab) in be:
+        if u != v and v not in succ.setdefault(u, []):
+            succ[u].append(v)
+    local = sorted(json.loads('[' + loc.strip('{}') + ']'))
+    stack = [[x] for x in bi]
+    while stack:
+        path = stack.pop()
+        nxt = succ.get(path[-1], [])
+        if nxt:
+            # prune shapes the harness cannot schedule as early as possible
+            ops = [bn[x]['last'] for x in path[1:]]
+            walks = [o['f'] for o in ops if o['op'] == 'Walk']
+            first_other = next((k for k, o in enumerate(ops) if o['op'] != 'Walk'), None)
+            if first_other is not None and not (ops[0]['op'] == 'Cancel' or (first_other == len(local) and walks[:len(local)] == local)):
+                bk_skipped += 1
+                continue
+            if walks[:len(local)] != local[:len(walks[:len(local)])]:
+                bk_skipped += 1
+                continue
+            for y in nxt:
+                stack.append(path + [y])
+            continue
+        ops = [bn[x]['last'] for x in path[1:]]
+        fin = bn[path[-1]]
+        if fin['result'] == 'running':
+            continue
+        if ops[0]['op'] == 'Cancel':
+            evs = ['cancel!']
+        else:
+            evs = ['cancel' if o['op'] == 'Cancel' else 'done:' + o['f'] for o in ops if o['op'] in ('Cancel', 'Done')]
+        bk_probes.append({'id': len(bk_probes), 'local': local, 'remote0': sorted(json.loads('[' + rem.strip('{}') + ']')),
+                          'events': evs, 'result': fin['result'], 'remote': sorted(fin['remote'])})
+if len(bk_probes) < 5 or not any('cancel' in p['events'] and p['events'][0].startswith('done') for p in bk_probes):
+    c.inconclusive('Backup.tla produced too few realisable behaviours (%d)' % len(bk_probes))
+
+
+def bk_run(pp, name):
+    f = os.path.join(core.BUILD, 'out', 'c19-backup-%d-%s.json' % (os.getpid(), name))
+    json.dump(pp, open(f, 'w'))
+    try:
+        return c.run_harness(bk_binp, ['-in', f], timeout=1200)
+    finally:
+        os.remove(f)
+
+
+bres = bk_run(bk_probes, 'all')
+for vv in bres['violations']:
+    one = [p for p in bk_probes if p['id'] == vv['behaviour']]
+    again = bk_run(one, 'repro')
+    if not [x for x in again['violations'] if x['signature'] == vv['signature']]:
+        c.unreproduced('violation %s not reproduced on a second run' % vv['signature'])
+        continue
+    c.report(vv['signature'], vv['detail'], {'probe': one, 'harness': 'c19backup'})
+    break
+if bres['inconclusive']:
+    c.inconclusive('; '.join(bres['inconclusive'][:3]))
+# binding self-test: a behaviour with a corrupted expected remote set must be flagged
+badp = [dict(p, id=0, remote=p['remote'][1:]) for p in bk_probes if p['result'] == 'ok'][:1]
+bst = bk_run(badp, 'selftest')
+bk_selftest = bool(bst['inconclusive']) and 'spec result' in bst['inconclusive'][0]
+if not bk_selftest:
+    c.inconclusive('binding self-test failed: a corrupted expected remote set was accepted by c19backup')
+c.log('backup upload: %d spec states, %d realisable maximal behaviours replayed on the real backupSnapshot (%d path prefixes of other shapes skipped): %s' % (bk_states, len(bk_probes), bk_skipped, bres['stats']))
+c.cov.update(backup_upload=dict(spec_states=bk_states, behaviours_replayed=len(bk_probes), with_cancel=sum(1 for p in bk_probes if any(e.startswith('cancel') for e in p['events'])),
+                                spec_selftest_swallow_cancel_violates=True, binding_selftest_rejected=bk_selftest, samples=bres['samples'][:2]))
+
 c.cov.update(states=d.distinct, transitions=d.generated, traces_validated_against_impl=traces, trace_events=events, file_snapshots_checked=nsnaps,
              segment_behaviours_replayed=res['behaviours'], evaluations=nsnaps + res['behaviours'], distinct_nontrivial=nsnaps,
              binding_selftest_rejected=selftest,
              rule='tsTable level: every TakeFileSnapshot call of a concurrent real run (15 ms period, while writes/flushes/merges/GC run) is inspected and opened with initTSTable and must be accepted by TSTableTrace.tla (copy = file parts of one snapshot current during the call; manifest parts present; opens with exactly those parts); segment level: SegmentAPI behaviours with a snapshot step after idle-close/retention/forced steps replayed on a real TSDB (closed segments stay closed, flagged ones skipped, one directory per copied segment); non-trivial = non-empty snapshot copy',
              samples=samples)
-c.assumptions += ['measure and stream tsTables (trace engine not driven); whole-database restore through banyand/backup is not exercised',
+c.assumptions += ['measure and stream tsTables (trace engine not driven); the upload leg of banyand/backup (backupSnapshot) is replayed from Backup.tla with small files only (the sequential large-file path and cancellation in the middle of the walk have no gate); restore is not exercised',
                   'row content of a hard-linked part equals the source by construction; consistency is decided on part identities']
 c.finish()
